@@ -98,8 +98,12 @@ VARIANTS += [
     fire("c16-build-map-size-of-any-entity",
          [(CBD, '                if not isinstance(src, Register):\n                    raise JaqalError(\n                        f"Cannot slice {src_name}: it is not a register"\n                    )\n                if src.fundamental:', "                if src.fundamental:")],
          ("C16.14", "Builder.build_map:context-entity:src.size"), ("C16",)),
-    fire("c16-as-integer-handler-narrowed",
-         [(CBD, "    except Exception:\n        # The value wasn't even numeric.", "    except (TypeError, ValueError, JaqalError):\n        # The value wasn't even numeric.")],
+    # narrowing away OverflowError is harmless while the lexer rejects non-finite literals (int() of program values cannot overflow) ...
+    silent("c16-as-integer-handler-narrowed",
+           [(CBD, "    except Exception:\n        # The value wasn't even numeric.", "    except (TypeError, ValueError, JaqalError):\n        # The value wasn't even numeric.")], ("C16",)),
+    # ... narrowing away ValueError is not
+    fire("c16-as-integer-handler-narrowed-too-far",
+         [(CBD, "    except Exception:\n        # The value wasn't even numeric.", "    except (TypeError, JaqalError):\n        # The value wasn't even numeric.")],
          ("C16.13", "as_integer:conversion-handler"), ("C16",)),
     silent("c16-as-integer-handler-explicit-complete",
            [(CBD, "    except Exception:\n        # The value wasn't even numeric.", "    except (TypeError, ValueError, OverflowError, JaqalError):\n        # The value wasn't even numeric.")], ("C16",)),
@@ -158,4 +162,11 @@ VARIANTS += [
     fire("c16-import-path-not-checked",
          [(IMPF, '    if not Path(search_path).is_dir():\n        raise ImportError(f"Unable to find module {mod_name}")\n\n', "")],
          ("C16.20", "path-tested:listdir"), ("C16",)),
+]
+
+ES16 = "src/jaqalpaq/core/algorithm/expand_subcircuits.py"
+VARIANTS += [
+    fire("c16-none-branch-use",
+         [(ES16, "        if new_def is not None and isinstance(gate.gate_def, Macro):", "        if new_def is None and isinstance(gate.gate_def, Macro):")],
+         ("C16.3", "SubcircuitExpander.visit_GateStatement:none-branch-use:new_def"), ("C16",)),
 ]
